@@ -39,6 +39,8 @@ def main(argv):
     manifest = json.load(open(os.path.join(ROOT, 'MANIFEST.json')))
     claimed = [c['property_id'] for c in manifest['checks']]
     props = claimed if run_all else [pid]
+    if '--also' in argv:
+        props += [x for x in argv[argv.index('--also') + 1].split(',') if x not in props]
     result = {'property': pid, 'title': meta.get('title'), 'tier': tier, 'runs': []}
     r = sh(['git', '-C', REPO, 'apply', os.path.join(d, 'patch.diff')])
     if r.returncode != 0:
